@@ -149,4 +149,47 @@ theorem prependS_translated {s : St} (h : Inv s) {v tmp : Nat} (hv : v < s.n) (h
                   simp only [Option.bind_eq_bind, Option.bind_some, dtor_translated S tmp]
                   rfl
 
+/-- **`String::printf` (String.cpp)**: the retry logic around `vsnprintf` — `detach(0, 200)`, first attempt with the size
+    `capacity`, success test `result >= 0 && (usize)result < capacity`, `data->len = result`; else the length query
+    `vsnprintf(0, 0, …)`, `detach(0, result)`, second attempt with `result + 1`, `data->len = result` — as translated from the
+    current String.cpp is the model's `printfOut` (state and return value); `out` is the text the libc formatter produces for
+    the format and its arguments (`Mach.vsnprintf`: at most `size - 1` chars and a NUL are stored, the value is `out.length`). -/
+theorem printf_translated {s : St} (h : Inv s) {v : Nat} (hv : v < s.n) (out : List Nat) :
+    Body.printf s v out = (printfOut s v out).map (fun r => (r.1, (r.2 : Int))) := by
+  unfold Body.printf printfOut
+  have e0 := fun n => detach_translated_eq (sane_of_inv h) v 0 n (Or.inl (Nat.zero_le _))
+  simp only [e0, Generated.printfBuf]
+  generalize h1 : detach s v 0 _ = r1
+  cases r1 with
+  | none => simp
+  | some s1 =>
+    obtain ⟨E1, b, blk, hv1, hb1, r1, hl, hcap⟩ := eff_detach h hv h1
+    have hv1n : v < s1.n := by rw [E1.n]; exact hv
+    simp only [Option.bind_eq_bind, Option.bind_some, printfTail, desc, hv1, hb1, memOf, Option.map_some, dStr, dCap,
+      Mach.vsnprintf, vsnStore, Nat.zero_add]
+    by_cases c0 : blk.cap = 0
+    · omega
+    · simp only [c0, if_false]
+      cases hw : wr blk.bytes 0 (List.map some (List.take (blk.cap - 1) out) ++ [some 0]) with
+      | none => simp
+      | some m =>
+        simp only [Option.bind_some, upd_same, Option.map_some]
+        by_cases fit : out.length < blk.cap
+        · simp [fit, setLen, updBlk, upd_upd_same, writeOwn, hv1, hb1, r1]
+        · have S := sane_upd_live (blk' := { bytes := m, len := blk.len, cap := blk.cap, ref := 1 })
+            (sane_of_inv E1.inv) hb1 r1.symm
+          have e2 := fun n => detach_translated_eq S v 0 n (Or.inl (Nat.zero_le _))
+          have nf : ¬ ((out.length : Int) < 0) := by omega
+          simp only [Int.ofNat_eq_natCast, Int.natCast_nonneg, ge_iff_le, if_true, Int.toNat_natCast, fit, if_false,
+            Option.bind_some, Option.pure_def, writeOwn, hv1, hb1, r1, nf, e2]
+          generalize h3 : detach _ v 0 out.length = r3
+          cases r3 with
+          | none => simp [fit]
+          | some s3 =>
+            obtain ⟨b3, blk3, hv3, hb3, r3, hl3⟩ := detach_excl h3
+            have : ((out.length : Int) + 1).toNat = out.length + 1 := by omega
+            simp [desc, hv3, hb3, dStr, memOf, Mach.vsnprintf, vsnStore, setLen, updBlk, upd_upd_same, writeOwn, r3,
+              Option.bind_assoc, this, fit]
+            cases wr blk3.bytes 0 (List.map some out ++ [some 0]) <;> simp
+
 end Nstd.Str
